@@ -133,6 +133,7 @@ func init() {
 		Properties[p] = func(env *Env) []*Harness { return []*Harness{HGenSeq()} }
 	}
 	Properties["C12"] = func(env *Env) []*Harness { return []*Harness{HVars()} }
+	Properties["C14"] = func(env *Env) []*Harness { return []*Harness{HOrder()} }
 	Properties["C15"] = func(env *Env) []*Harness { return []*Harness{HRun()} }
 	Properties["C18"] = func(env *Env) []*Harness { return []*Harness{HRun()} }
 }
